@@ -3,6 +3,7 @@ package simrt
 import (
 	"runtime"
 	"strconv"
+	"sync/atomic"
 	"time"
 )
 
@@ -90,10 +91,14 @@ type Sim struct {
 	stepsGuess int64
 
 	mainWake chan struct{}
-	killAck  chan struct{}
-	over     bool
-	fail     *Failure
-	epochID  uint64
+	// live counts the task goroutines of this run that have not returned yet. Run does not
+	// return before it is zero: a goroutine of a finished run that was still unwinding would
+	// read the package-level S of the NEXT run and act on it as if it were one of its tasks.
+	live    int32
+	killAck chan struct{}
+	over    bool
+	fail    *Failure
+	epochID uint64
 
 	touched []resetter
 
@@ -216,7 +221,8 @@ func Run(cfg Config, root func()) *Result {
 	raceEnable()
 	// run is over or aborted: kill whatever is left
 	s.over = true
-	for _, t := range s.tasks {
+	for i := 0; i < len(s.tasks); i++ { // by index: unwinding code may still create tasks
+		t := s.tasks[i]
 		if t.state != tsDone {
 			s.cur = t
 			t.killed = true
@@ -227,6 +233,7 @@ func Run(cfg Config, root func()) *Result {
 			t.state = tsDone
 		}
 	}
+	s.waitGoroutines()
 	for _, r := range s.touched {
 		r.simReset()
 	}
@@ -270,6 +277,26 @@ func (s *Sim) watchdogExit(msg string) {
 	exit2()
 }
 
+// waitGoroutines waits until every task goroutine of this run has returned.
+//
+//go:norace
+func (s *Sim) waitGoroutines() {
+	if atomic.LoadInt32(&s.live) == 0 {
+		return
+	}
+	start := time.Now()
+	for n := 0; atomic.LoadInt32(&s.live) != 0; n++ {
+		runtime.Gosched()
+		if n%1024 == 1023 {
+			time.Sleep(50 * time.Microsecond)
+			if time.Since(start) > time.Duration(WatchdogSeconds)*time.Second {
+				s.watchdogExit("simrt watchdog: task goroutines of a finished run did not return within " + strconv.Itoa(WatchdogSeconds) + "s (seed " +
+					strconv.FormatUint(s.cfg.Seed, 10) + ")")
+			}
+		}
+	}
+}
+
 // waitKillAck waits for a leftover task to acknowledge its kill; a task that does not is a
 // stuck real goroutine (machinery trouble).
 //
@@ -310,12 +337,14 @@ func (s *Sim) newTask(name string, fn func()) *Task {
 	s.tasks = append(s.tasks, t)
 	// started eagerly by the logical parent so that ThreadSanitizer's fork edge is the
 	// one the real `go` statement would create
+	atomic.AddInt32(&s.live, 1)
 	go t.main()
 	return t
 }
 
 //go:norace
 func (t *Task) main() {
+	defer atomic.AddInt32(&t.sim.live, -1) // outermost: runs after exit() and after every deferred call of the task's own code
 	raceDisable()
 	<-t.wake
 	raceEnable()
